@@ -7,4 +7,16 @@ open Csproto.Generated
 theorem decodeString_copies_in_safe_mode : decodeStringUnsafeOnlyFast = true ∧ decodeStringSafeCopies = true := by decide
 theorem lazy_inputs_are_cloned : lazyDecoderClonesInSafeMode = true ∧ lazyDecodeFuncClones = true := by decide
 
+/-- `NewDecoder` returns a newly constructed `Decoder` whose literal does not mention `mode` — the zero value,
+    `DecoderModeSafe` — and `SetMode` is the only function that ever writes a decoder's mode: a decoder is in
+    fast mode only if its own user called `SetMode` on it.  (Fails when `NewDecoder` starts recycling objects.) -/
+theorem newDecoder_is_fresh_and_safe :
+    newDecoderIsFreshLiteral = true ∧ newDecoderLiteralFields.contains "mode" = false ∧
+    decoderModeWriters = ["SetMode"] := by decide
+
+/-- the generated `Unmarshal` gets its decoder from one `csproto.NewDecoder(p)` and switches it to fast mode
+    only under the `enableunsafedecode` option -/
+theorem generated_decoder_setup :
+    decoderSetup = [("singlefile.go.tmpl", true, true), ("permessage.go.tmpl", true, true)] := by decide
+
 end Csproto.Bridge.Aliasing
